@@ -28,10 +28,35 @@ META = {
 GROUP = "onnxref"
 REQ = ("From Coq Require Import String Uint63.\nFrom RV Require Import Prelude.\n"
        "From OnnxRef Require Import RefBase OnnxRef ModelC15.\nOpen Scope string_scope.\nOpen Scope uint63_scope.")
-THEOREMS = []
+THEOREMS = [
+    "C15_get_tab", "C15_tabo_spec", "C15_nth_all_idx", "C15_In_all_idx",
+    "C15_NoDup_all_idx", "C15_norm_axis_spec", "C15_bshape_spec", "C15_bidx_valid",
+    "C15_bidx_coords", "C15_binop_spec", "C15_binop_defined", "C15_where_spec",
+    "C15_get_unop", "C15_div_trunc_spec", "C15_mod_int_spec", "C15_mod_fmod_spec",
+    "C15_pow_spec", "C15_compare_spec", "C15_transpose_spec", "C15_expand_spec",
+    "C15_tile_spec", "C15_concat_spec", "C15_split_sizes_sum", "C15_split_sizes_equal",
+    "C15_split_spec", "C15_slice_start_range", "C15_slice_end_range", "C15_slice_len_spec",
+    "C15_slice_in_bounds", "C15_nth_slice_params", "C15_nth_slice_src", "C15_slice_spec",
+    "C15_pad_src_in_bounds", "C15_nth_pad_params", "C15_pad_spec", "C15_norm_idx_spec",
+    "C15_gather_spec", "C15_gather_elements_spec", "C15_gather_nd_spec", "C15_scatter_apply_spec",
+    "C15_scatter_elements_spec", "C15_scatter_nd_spec", "C15_red_fold_spec", "C15_reduce_spec",
+    "C15_reduce_op_spec", "C15_arg_reduce_spec", "C15_cumsum_range_spec", "C15_cumsum_spec",
+    "C15_trilu_spec", "C15_range_spec", "C15_onehot_spec", "C15_matmul_spec",
+    "C15_gemm_spec", "C15_reshape_spec", "C15_squeeze_spec", "C15_unsqueeze_spec",
+    "C15_topk_list_spec", "C15_topk_spec", "C15_out_eqb_spec", "C15_prop_ok_reflect",
+    "C15_sign_zero_refuted", "C15_sign_of_zero", "C15_nonvacuous_slice_negative_step", "C15_nonvacuous_broadcast_mod",
+    "C15_nonvacuous_reduce_argmax", "C15_nonvacuous_run_ref",
+]
 
 
 def classify(case):
+    """F150: f32 Sign of a zero element (recorded known finding; pinned by rten's unit test test_sign)."""
+    p = case["input"].split()
+    if p and p[0] == "Sign" and "f32" in p:
+        i = p.index("f32")
+        vals = p[i + 2].split(",") if len(p) > i + 2 else []
+        if "0" in vals:
+            return "F150"
     return None
 
 
